@@ -19,6 +19,8 @@ pub struct ElemEntry {
     pub r#gen: Option<usize>,
     /// cached decoded discrete log
     pub dlog: Option<u32>,
+    /// positional epoch at creation (see `Ctx::epoch`)
+    pub epoch: u64,
 }
 
 #[derive(Copy, Clone, Debug)]
@@ -29,13 +31,14 @@ pub const E_GENERATOR: E = E(1);
 impl Ctx {
     pub fn init_elems(&mut self) {
         self.elems.clear();
-        self.elems.push(ElemEntry { terms: BTreeMap::new(), r#gen: None, dlog: Some(0) });
+        self.elems.push(ElemEntry { terms: BTreeMap::new(), r#gen: None, dlog: Some(0), epoch: 0 });
         let mut g = BTreeMap::new();
         g.insert(1u32, Big::small(1));
-        self.elems.push(ElemEntry { terms: g, r#gen: None, dlog: Some(1) });
+        self.elems.push(ElemEntry { terms: g, r#gen: None, dlog: Some(1), epoch: 0 });
     }
     fn push_elem(&mut self, terms: BTreeMap<u32, Big>, r#gen: Option<usize>) -> u32 {
-        self.elems.push(ElemEntry { terms, r#gen, dlog: None });
+        let epoch = self.epoch;
+        self.elems.push(ElemEntry { terms, r#gen, dlog: None, epoch });
         (self.elems.len() - 1) as u32
     }
     pub fn elem_from_dlog(&mut self, s: u32) -> u32 {
@@ -47,10 +50,23 @@ impl Ctx {
         }
         let mut m = BTreeMap::new();
         m.insert(s, Big::small(1));
-        self.elems.push(ElemEntry { terms: m, r#gen: None, dlog: Some(s) });
+        let epoch = self.epoch;
+        self.elems.push(ElemEntry { terms: m, r#gen: None, dlog: Some(s), epoch });
         (self.elems.len() - 1) as u32
     }
+    /// an element still carrying positional coefficients of a multiscalar that finished before the
+    /// latest NAF computation must be decoded before it takes part in new arithmetic (otherwise
+    /// positional values would get multiplied with each other)
+    fn settle(&mut self, e: u32) -> u32 {
+        let ent = &self.elems[e as usize];
+        if ent.r#gen.is_some() && ent.epoch < self.epoch {
+            let d = self.elem_dlog(e);
+            return self.elem_from_dlog(d);
+        }
+        e
+    }
     pub fn elem_comb(&mut self, a: u32, b: u32, neg: bool) -> u32 {
+        let (a, b) = (self.settle(a), self.settle(b));
         let ea = self.elems[a as usize].clone();
         let eb = self.elems[b as usize].clone();
         let mut m = ea.terms;
